@@ -213,6 +213,19 @@ PROPS = {
         trusted=["gate datastore over go-datastore MapDatastore (assumed linearizable per access)", "real clock: a caller that has not reached the datastore within 3 ms is treated as blocked on a lock (affects only which schedules are explored)"],
         shards={"quick": 8, "thorough": 16},
     ),
+    "C20": dict(
+        pkg="./provider/keystore", test="TestVerifC20", model="C20", verdict="C20v", level="proof", diff_is_failure=False,
+        accept=lambda m, o: m == "-" or all((" " + t + " ") in (" " + o + " ") for t in m.split(" ")),
+        rule="a case is a history on a real keystore (plain, resettable shared-datastore, resettable factory mode; prefixBits 8/16, batch "
+             "sizes 1-100, reset buffer 1-100) over a journalling datastore: put (with repeated keys) / delete / get / count / contains "
+             "for prefixes shorter and longer than the path / empty / size, datastore errors injected at the n-th call of an operation, "
+             "clean restarts, crashes (reopen on the journal cut here, with and without the unsynced writes), and resets with puts issued "
+             "when the reset is about to make its n-th datastore call, with an injected error, a cancellation or a Close at such a "
+             "point; after a reset the keystore is reopened on cuts of that reset's stretch of the journal (sampled + the last ten "
+             "positions; every position in the thorough tier's small cases); non-trivial = every case; distinct = case text",
+        trusted=["journalling datastore (batch commits atomic; a crash keeps an in-order prefix of the journal, and optionally only what a later Sync of a covering prefix on the same physical store made durable)", "synctest virtual time for the reset's drain ticker"],
+        shards={"quick": 8, "thorough": 16},
+    ),
     "C08": dict(
         pkg=".", test="TestVerifC08", model="C08", verdict="C08v", level="proof", diff_is_failure=True, also=["C15"],
         accept=lambda m, o: m == "-" or m == "pseq=*" or (" " + m + " ") in (" " + o + " "),
